@@ -13,6 +13,9 @@ def hook_commits():
 
 # id -> (level, technique, engine, level text, level note, design ref)
 CHECKS = {
+ "C03": ("exploration", "schedule exploration: generated thread programs and generated schedules over named pause points (controlled preemption) plus free-running stress; verdict = invariants over the recorded call/return history",
+         "sched", "Generated 2-4 thread programs and tape-decided schedules at 17 pause points and call boundaries; every observation must be one commit consistent across tables, inside the [returned-before, called-before] window, never aborted/uncommitted data, never moving backwards, writers never overlapping; a directed regression for the begin_read registration race.",
+         "Preemption only at named points/call boundaries; no weak-memory exploration; 25 ms timeout is a scheduling hint only.", "DESIGN.md 4/C03"),
  "C04": ("exploration", "model-based property testing: proptest-generated op tapes vs BTreeMap reference model, shrinking to a replay tape",
          "tableops",
          "Seeded random search over operation sequences x 6 key/value families x page/region/cache sizes with byte-exact threshold value lengths; every return value and full forward/backward scans compared with a BTreeMap. A search, not a proof: it establishes that no counterexample exists among the generated cases.",
@@ -111,6 +114,7 @@ def main():
             {"name": "alloc", "path": "harness/src/c14.rs", "serves_properties": ["C14"], "kind_free_text": "bitset model of buddy allocator / page manager regions"},
             {"name": "types", "path": "harness/src/c15.rs", "serves_properties": ["C15"], "kind_free_text": "typed value generators and Ord oracle for 33 key types"},
             {"name": "compat", "path": "harness/src/c19.rs", "serves_properties": ["C19"], "kind_free_text": "two redb versions (path dependency and redb 3.0.0 from the cargo cache) over one shared in-memory buffer"},
+            {"name": "sched", "path": "harness/src/sched.rs", "serves_properties": ["C03", "C16"], "kind_free_text": "controller/worker scheduler over the H2 pause points; schedules decoded from the tape"},
             {"name": "hist", "path": "harness/src/hist.rs", "serves_properties": ["C01", "C02", "C05", "C07", "C08", "C11", "C13", "C17", "C20"], "kind_free_text": "history state machine (transactions, savepoints, readers, catalog, reopen, compact) with a reference model of commit points"},
             {"name": "crashsim", "path": "harness/src/crash.rs", "serves_properties": ["C01", "C07", "C08", "C11", "C13", "C20"], "kind_free_text": "recording / fault-injecting / contract-monitoring StorageBackend and crash-state enumerator"},
         ],
